@@ -60,6 +60,7 @@ void harness(void)
 	} else {
 		COVER(rc == -ENOMEM);
 		POST(hdb->handle_count == count0 || hdb->handle_count == count0 + 1, "failed create leaves the slot count consistent");
+		POST(verif_T.state == QB_HDB_HANDLE_STATE_EMPTY, "a failed create issues no handle: its slot stays unused (no handle value resolves to it, iteration does not visit it)");
 	}
 	POST(hdb->handle_count <= verif_arr_max, "handle count never exceeds the array size");
 	POST(verif_W.state == w0.state && verif_W.check == w0.check && verif_W.ref_count == w0.ref_count && verif_W.instance == w0.instance,
